@@ -35,6 +35,11 @@ def main(tier):
     # what lies outside a feature is decided by its extent, and the extent by the depth values listed in the file
     rep.attempt(kernels.merge_structure, P, rep)
     rep.attempt(dep.surface_pairing, P, rep)
+    # whether a point lies outside a slab or fault is decided by their membership tests: the slab/fault siblings must agree and
+    # every interpolated bound (thickness, top truncation, length) must be the convex combination it is documented to be
+    from ..rules import segments as _segments
+    rep.attempt(_segments.line_siblings, P, rep)
+    rep.attempt(_segments.interpolation_shape, P, rep)
     rep.explanation = ("Algebraic form of every initial block of the result, provenance of the global constants (each from the "
                        "entry of its own name, written nowhere else), all feature writes control-dependent on the feature's extent "
                        "test, forced surface temperature emitted under exactly its condition, independent of batching, and "
